@@ -454,8 +454,8 @@ func init() {
 			c15Eval(c, c15stats, sh, mask, variant, perm)
 		}, nil
 	}
-	sizesQuick := []int{0, 1, 22, 23, 24, 25, 254, 255, 256, 257}
-	sizesThorough := append(append([]int{}, sizesQuick...), 65534, 65535, 65536, 65537, 70000)
+	sizesQuick := []int{0, 1, 22, 23, 24, 25, 254, 255, 256, 257, 65535, 65536}
+	sizesThorough := append(append([]int{}, sizesQuick...), 65534, 65537, 70000)
 	mkSyn := func(sizes []int) func() (choice.Scenario, func() any) {
 		return func() (choice.Scenario, func() any) {
 			return func(c *choice.Ctx) {
